@@ -239,7 +239,7 @@ func TestC10Sequences(t *testing.T) {
 				}
 			}
 		}
-		if second > 0 && rapid.IntRange(0, 2).Draw(rt, "phasedelete") == 0 {
+		if second > 0 && rapid.Bool().Draw(rt, "phasedelete") {
 			c.Dist.Drift = append(c.Dist.Drift, C10Drift{At: second, Step: Step{Op: "tpDeletePhase", I: rapid.IntRange(0, 3).Draw(rt, "phase")}})
 		}
 		got, err := runC10(script, c.Dist)
